@@ -550,7 +550,7 @@ func (d *decoderImpl) decodeNullableValue(v reflect.Value) error {
 	if err := d.decodeValue(v); err == ErrNilValue {
 		elem := v.Elem()
 		elem.Set(reflect.Zero(elem.Type()))
-		return nil
+		return d.flush()
 	} else {
 		return err
 	}
@@ -669,6 +669,9 @@ func (d *decoderImpl) decodeValue(v reflect.Value) error {
 		if err := d.decodeValue(v2); err != nil {
 			if err == ErrNilValue {
 				v2 = reflect.Zero(elem.Type())
+				if err := d.flush(); err != nil {
+					return err
+				}
 			} else {
 				return err
 			}
